@@ -1,7 +1,7 @@
 SPECIFICATION Spec
 CONSTANTS
   DefectAddRightAssoc = FALSE
-  MaxLen = 7
+  MaxLen = 6
   Ops = {"eq", "nullish", "oror", "bitor", "mul", "exp"}
 INVARIANT Unambiguous
 INVARIANT ClimbEqualsLadder
